@@ -4,7 +4,8 @@
 
 Require Import ZArith List Bool Lia.
 Require Import LV.Base.CInt LV.Proofs.C25_Bits LV.Proofs.C25_Reversal LV.Proofs.C25_Bitop LV.Proofs.C25_Rbo
-  LV.Proofs.C25_Popcount LV.Proofs.C25_Bitop2 LV.Proofs.C25_IntAlgo LV.Proofs.C25_NumSplit.
+  LV.Proofs.C25_Popcount LV.Proofs.C25_Bitop2 LV.Proofs.C25_IntAlgo LV.Proofs.C25_Fields LV.Proofs.C25_NumSplit
+  LV.Proofs.C25_ByteSplit.
 Require LV.Gen.Gen_bit_reversal LV.Gen.Gen_bitop LV.Gen.Gen_int_algo LV.Gen.Gen_split.
 Import ListNotations.
 Local Open Scope Z_scope.
@@ -304,112 +305,112 @@ Print Assumptions log2_correct.
     a width is legal when [1 <= c < 8*sizeof(Int)] (is_correct); [clip] is the width actually delivered by safe_cut. *)
 
 Theorem number_splitter_i16_cut_sequence_reconstructs :
-  forall n cs, ok_i16 n -> Forall (legal 16) cs -> zsum cs = 16 ->
+  forall n cs, ok_i16 n -> Forall (legal 16) cs -> C25_Fields.zsum cs = 16 ->
   exists vs, run Gen_split.ns_i16 Gen_split.ns_i16_cut (Gen_split.mk_ns_i16 n 0) cs = Some (vs, Gen_split.mk_ns_i16 n 16) /\
              length vs = length cs /\ joinf (combine vs cs) = n mod 2 ^ 16.
 Proof. exact ns_i16_cut_sequence. Qed.
 Print Assumptions number_splitter_i16_cut_sequence_reconstructs.
 
 Theorem number_splitter_i16_safe_cut_sequence_reconstructs :
-  forall n cs, ok_i16 n -> Forall (legal 16) cs -> 16 <= zsum cs ->
+  forall n cs, ok_i16 n -> Forall (legal 16) cs -> 16 <= C25_Fields.zsum cs ->
   exists vs, run Gen_split.ns_i16 Gen_split.ns_i16_safe_cut (Gen_split.mk_ns_i16 n 0) cs = Some (vs, Gen_split.mk_ns_i16 n 16) /\
              length vs = length cs /\ joinf (combine vs (clip 16 0 cs)) = n mod 2 ^ 16.
 Proof. exact ns_i16_safe_cut_sequence. Qed.
 Print Assumptions number_splitter_i16_safe_cut_sequence_reconstructs.
 
 Theorem number_splitter_u16_cut_sequence_reconstructs :
-  forall n cs, ok_u16 n -> Forall (legal 16) cs -> zsum cs = 16 ->
+  forall n cs, ok_u16 n -> Forall (legal 16) cs -> C25_Fields.zsum cs = 16 ->
   exists vs, run Gen_split.ns_u16 Gen_split.ns_u16_cut (Gen_split.mk_ns_u16 n 0) cs = Some (vs, Gen_split.mk_ns_u16 n 16) /\
              length vs = length cs /\ joinf (combine vs cs) = n mod 2 ^ 16.
 Proof. exact ns_u16_cut_sequence. Qed.
 Print Assumptions number_splitter_u16_cut_sequence_reconstructs.
 
 Theorem number_splitter_u16_safe_cut_sequence_reconstructs :
-  forall n cs, ok_u16 n -> Forall (legal 16) cs -> 16 <= zsum cs ->
+  forall n cs, ok_u16 n -> Forall (legal 16) cs -> 16 <= C25_Fields.zsum cs ->
   exists vs, run Gen_split.ns_u16 Gen_split.ns_u16_safe_cut (Gen_split.mk_ns_u16 n 0) cs = Some (vs, Gen_split.mk_ns_u16 n 16) /\
              length vs = length cs /\ joinf (combine vs (clip 16 0 cs)) = n mod 2 ^ 16.
 Proof. exact ns_u16_safe_cut_sequence. Qed.
 Print Assumptions number_splitter_u16_safe_cut_sequence_reconstructs.
 
 Theorem number_splitter_i32_cut_sequence_reconstructs :
-  forall n cs, ok_i32 n -> Forall (legal 32) cs -> zsum cs = 32 ->
+  forall n cs, ok_i32 n -> Forall (legal 32) cs -> C25_Fields.zsum cs = 32 ->
   exists vs, run Gen_split.ns_i32 Gen_split.ns_i32_cut (Gen_split.mk_ns_i32 n 0) cs = Some (vs, Gen_split.mk_ns_i32 n 32) /\
              length vs = length cs /\ joinf (combine vs cs) = n mod 2 ^ 32.
 Proof. exact ns_i32_cut_sequence. Qed.
 Print Assumptions number_splitter_i32_cut_sequence_reconstructs.
 
 Theorem number_splitter_i32_safe_cut_sequence_reconstructs :
-  forall n cs, ok_i32 n -> Forall (legal 32) cs -> 32 <= zsum cs ->
+  forall n cs, ok_i32 n -> Forall (legal 32) cs -> 32 <= C25_Fields.zsum cs ->
   exists vs, run Gen_split.ns_i32 Gen_split.ns_i32_safe_cut (Gen_split.mk_ns_i32 n 0) cs = Some (vs, Gen_split.mk_ns_i32 n 32) /\
              length vs = length cs /\ joinf (combine vs (clip 32 0 cs)) = n mod 2 ^ 32.
 Proof. exact ns_i32_safe_cut_sequence. Qed.
 Print Assumptions number_splitter_i32_safe_cut_sequence_reconstructs.
 
 Theorem number_splitter_u32_cut_sequence_reconstructs :
-  forall n cs, ok_u32 n -> Forall (legal 32) cs -> zsum cs = 32 ->
+  forall n cs, ok_u32 n -> Forall (legal 32) cs -> C25_Fields.zsum cs = 32 ->
   exists vs, run Gen_split.ns_u32 Gen_split.ns_u32_cut (Gen_split.mk_ns_u32 n 0) cs = Some (vs, Gen_split.mk_ns_u32 n 32) /\
              length vs = length cs /\ joinf (combine vs cs) = n mod 2 ^ 32.
 Proof. exact ns_u32_cut_sequence. Qed.
 Print Assumptions number_splitter_u32_cut_sequence_reconstructs.
 
 Theorem number_splitter_u32_safe_cut_sequence_reconstructs :
-  forall n cs, ok_u32 n -> Forall (legal 32) cs -> 32 <= zsum cs ->
+  forall n cs, ok_u32 n -> Forall (legal 32) cs -> 32 <= C25_Fields.zsum cs ->
   exists vs, run Gen_split.ns_u32 Gen_split.ns_u32_safe_cut (Gen_split.mk_ns_u32 n 0) cs = Some (vs, Gen_split.mk_ns_u32 n 32) /\
              length vs = length cs /\ joinf (combine vs (clip 32 0 cs)) = n mod 2 ^ 32.
 Proof. exact ns_u32_safe_cut_sequence. Qed.
 Print Assumptions number_splitter_u32_safe_cut_sequence_reconstructs.
 
 Theorem number_splitter_i64_cut_sequence_reconstructs :
-  forall n cs, ok_i64 n -> Forall (legal 64) cs -> zsum cs = 64 ->
+  forall n cs, ok_i64 n -> Forall (legal 64) cs -> C25_Fields.zsum cs = 64 ->
   exists vs, run Gen_split.ns_i64 Gen_split.ns_i64_cut (Gen_split.mk_ns_i64 n 0) cs = Some (vs, Gen_split.mk_ns_i64 n 64) /\
              length vs = length cs /\ joinf (combine vs cs) = n mod 2 ^ 64.
 Proof. exact ns_i64_cut_sequence. Qed.
 Print Assumptions number_splitter_i64_cut_sequence_reconstructs.
 
 Theorem number_splitter_i64_safe_cut_sequence_reconstructs :
-  forall n cs, ok_i64 n -> Forall (legal 64) cs -> 64 <= zsum cs ->
+  forall n cs, ok_i64 n -> Forall (legal 64) cs -> 64 <= C25_Fields.zsum cs ->
   exists vs, run Gen_split.ns_i64 Gen_split.ns_i64_safe_cut (Gen_split.mk_ns_i64 n 0) cs = Some (vs, Gen_split.mk_ns_i64 n 64) /\
              length vs = length cs /\ joinf (combine vs (clip 64 0 cs)) = n mod 2 ^ 64.
 Proof. exact ns_i64_safe_cut_sequence. Qed.
 Print Assumptions number_splitter_i64_safe_cut_sequence_reconstructs.
 
 Theorem number_splitter_u64_cut_sequence_reconstructs :
-  forall n cs, ok_u64 n -> Forall (legal 64) cs -> zsum cs = 64 ->
+  forall n cs, ok_u64 n -> Forall (legal 64) cs -> C25_Fields.zsum cs = 64 ->
   exists vs, run Gen_split.ns_u64 Gen_split.ns_u64_cut (Gen_split.mk_ns_u64 n 0) cs = Some (vs, Gen_split.mk_ns_u64 n 64) /\
              length vs = length cs /\ joinf (combine vs cs) = n mod 2 ^ 64.
 Proof. exact ns_u64_cut_sequence. Qed.
 Print Assumptions number_splitter_u64_cut_sequence_reconstructs.
 
 Theorem number_splitter_u64_safe_cut_sequence_reconstructs :
-  forall n cs, ok_u64 n -> Forall (legal 64) cs -> 64 <= zsum cs ->
+  forall n cs, ok_u64 n -> Forall (legal 64) cs -> 64 <= C25_Fields.zsum cs ->
   exists vs, run Gen_split.ns_u64 Gen_split.ns_u64_safe_cut (Gen_split.mk_ns_u64 n 0) cs = Some (vs, Gen_split.mk_ns_u64 n 64) /\
              length vs = length cs /\ joinf (combine vs (clip 64 0 cs)) = n mod 2 ^ 64.
 Proof. exact ns_u64_safe_cut_sequence. Qed.
 Print Assumptions number_splitter_u64_safe_cut_sequence_reconstructs.
 
 Theorem number_splitter_i64ll_cut_sequence_reconstructs :
-  forall n cs, ok_i64ll n -> Forall (legal 64) cs -> zsum cs = 64 ->
+  forall n cs, ok_i64ll n -> Forall (legal 64) cs -> C25_Fields.zsum cs = 64 ->
   exists vs, run Gen_split.ns_i64ll Gen_split.ns_i64ll_cut (Gen_split.mk_ns_i64ll n 0) cs = Some (vs, Gen_split.mk_ns_i64ll n 64) /\
              length vs = length cs /\ joinf (combine vs cs) = n mod 2 ^ 64.
 Proof. exact ns_i64ll_cut_sequence. Qed.
 Print Assumptions number_splitter_i64ll_cut_sequence_reconstructs.
 
 Theorem number_splitter_i64ll_safe_cut_sequence_reconstructs :
-  forall n cs, ok_i64ll n -> Forall (legal 64) cs -> 64 <= zsum cs ->
+  forall n cs, ok_i64ll n -> Forall (legal 64) cs -> 64 <= C25_Fields.zsum cs ->
   exists vs, run Gen_split.ns_i64ll Gen_split.ns_i64ll_safe_cut (Gen_split.mk_ns_i64ll n 0) cs = Some (vs, Gen_split.mk_ns_i64ll n 64) /\
              length vs = length cs /\ joinf (combine vs (clip 64 0 cs)) = n mod 2 ^ 64.
 Proof. exact ns_i64ll_safe_cut_sequence. Qed.
 Print Assumptions number_splitter_i64ll_safe_cut_sequence_reconstructs.
 
 Theorem number_splitter_u64ll_cut_sequence_reconstructs :
-  forall n cs, ok_u64ll n -> Forall (legal 64) cs -> zsum cs = 64 ->
+  forall n cs, ok_u64ll n -> Forall (legal 64) cs -> C25_Fields.zsum cs = 64 ->
   exists vs, run Gen_split.ns_u64ll Gen_split.ns_u64ll_cut (Gen_split.mk_ns_u64ll n 0) cs = Some (vs, Gen_split.mk_ns_u64ll n 64) /\
              length vs = length cs /\ joinf (combine vs cs) = n mod 2 ^ 64.
 Proof. exact ns_u64ll_cut_sequence. Qed.
 Print Assumptions number_splitter_u64ll_cut_sequence_reconstructs.
 
 Theorem number_splitter_u64ll_safe_cut_sequence_reconstructs :
-  forall n cs, ok_u64ll n -> Forall (legal 64) cs -> 64 <= zsum cs ->
+  forall n cs, ok_u64ll n -> Forall (legal 64) cs -> 64 <= C25_Fields.zsum cs ->
   exists vs, run Gen_split.ns_u64ll Gen_split.ns_u64ll_safe_cut (Gen_split.mk_ns_u64ll n 0) cs = Some (vs, Gen_split.mk_ns_u64ll n 64) /\
              length vs = length cs /\ joinf (combine vs (clip 64 0 cs)) = n mod 2 ^ 64.
 Proof. exact ns_u64ll_safe_cut_sequence. Qed.
@@ -424,6 +425,114 @@ Theorem number_splitter_safe_cut_full_width_is_UB :
   (forall n, Gen_split.ns_i64_safe_cut (Gen_split.mk_ns_i64 n 0) 64 = None).
 Proof. exact (conj ns_u32_safe_cut_full_width_ub (conj ns_i32_safe_cut_full_width_ub (conj ns_u64_safe_cut_full_width_ub ns_i64_safe_cut_full_width_ub))). Qed.
 Print Assumptions number_splitter_safe_cut_full_width_is_UB.
+
+(** ** (d) byte_splitter and split_bitstring over a byte array
+    [mem] is the source object as a list of bytes (each in [0,256)), [mval mem] the little-endian number they form
+    (bit k of the stream is bit k mod 8 of byte k/8), [zlen mem] its size.  The splitter state is the record the
+    translator generates for the class: {cur_, [offset_,] first_, last_} with pointers as byte indices; the
+    initial state {0,[0,]0,size} is what the (untranslated) constructor builds -- compared by the sweep.
+    [fuel] bounds the translated loops.  Reading outside [mem] is [None] in the model, so a result [Some] means
+    every byte read was in bounds. *)
+
+Theorem split_bitstring_u32_cut_sequence_reconstructs :
+  forall mem fuel, bytes_ok mem -> 0 < zlen mem -> (32 < fuel)%nat ->
+  forall cs, Forall sb_legal_32 cs -> C25_Fields.zsum cs = 8 * zlen mem ->
+  exists vs, run Gen_split.sb_u32 (Gen_split.sb_u32_cut fuel mem) (Gen_split.mk_sb_u32 0 0 0 (zlen mem)) cs
+             = Some (vs, Gen_split.mk_sb_u32 (zlen mem) 0 0 (zlen mem)) /\
+             length vs = length cs /\ joinf (combine vs cs) = mval mem.
+Proof. exact sb_u32_cut_sequence. Qed.
+Print Assumptions split_bitstring_u32_cut_sequence_reconstructs.
+
+Theorem split_bitstring_u32_safe_cut_sequence_reconstructs :
+  forall mem fuel, bytes_ok mem -> 0 < zlen mem -> (32 < fuel)%nat ->
+  forall cs, 8 * zlen mem < 2 ^ 31 -> Forall sb_legal_32 cs -> 8 * zlen mem <= C25_Fields.zsum cs ->
+  exists vs, run Gen_split.sb_u32 (Gen_split.sb_u32_safe_cut fuel mem) (Gen_split.mk_sb_u32 0 0 0 (zlen mem)) cs
+             = Some (vs, Gen_split.mk_sb_u32 (zlen mem) 0 0 (zlen mem)) /\
+             length vs = length cs /\ joinf (combine vs (clip (8 * zlen mem) 0 cs)) = mval mem.
+Proof. exact sb_u32_safe_cut_sequence. Qed.
+Print Assumptions split_bitstring_u32_safe_cut_sequence_reconstructs.
+
+Theorem split_bitstring_u32_safe_cut_in_bounds :
+  forall mem fuel, bytes_ok mem -> 0 < zlen mem -> (32 < fuel)%nat ->
+  forall cs, 8 * zlen mem < 2 ^ 31 -> Forall sb_legal_32 cs ->
+  exists vs st, run Gen_split.sb_u32 (Gen_split.sb_u32_safe_cut fuel mem) (Gen_split.mk_sb_u32 0 0 0 (zlen mem)) cs = Some (vs, st).
+Proof. exact sb_u32_safe_cut_in_bounds. Qed.
+Print Assumptions split_bitstring_u32_safe_cut_in_bounds.
+
+Theorem byte_splitter_u32_cut_sequence_reconstructs :
+  forall mem fuel, bytes_ok mem -> 0 < zlen mem -> (4 < fuel)%nat ->
+  forall cs, Forall bs_legal_32 cs -> C25_Fields.zsum cs = 8 * zlen mem ->
+  exists vs, run Gen_split.bs_u32 (Gen_split.bs_u32_cut fuel mem) (Gen_split.mk_bs_u32 0 0 (zlen mem)) cs
+             = Some (vs, Gen_split.mk_bs_u32 (zlen mem) 0 (zlen mem)) /\
+             length vs = length cs /\ joinf (combine vs cs) = mval mem.
+Proof. exact bs_u32_cut_sequence. Qed.
+Print Assumptions byte_splitter_u32_cut_sequence_reconstructs.
+
+Theorem byte_splitter_u32_safe_cut_sequence_reconstructs :
+  forall mem fuel, bytes_ok mem -> 0 < zlen mem -> (4 < fuel)%nat ->
+  forall cs, 8 * zlen mem < 2 ^ 31 -> Forall bs_legal_32 cs -> 8 * zlen mem <= C25_Fields.zsum cs ->
+  exists vs, run Gen_split.bs_u32 (Gen_split.bs_u32_safe_cut fuel mem) (Gen_split.mk_bs_u32 0 0 (zlen mem)) cs
+             = Some (vs, Gen_split.mk_bs_u32 (zlen mem) 0 (zlen mem)) /\
+             length vs = length cs /\ joinf (combine vs (clip (8 * zlen mem) 0 cs)) = mval mem.
+Proof. exact bs_u32_safe_cut_sequence. Qed.
+Print Assumptions byte_splitter_u32_safe_cut_sequence_reconstructs.
+
+Theorem byte_splitter_u32_safe_cut_in_bounds :
+  forall mem fuel, bytes_ok mem -> 0 < zlen mem -> (4 < fuel)%nat ->
+  forall cs, 8 * zlen mem < 2 ^ 31 -> Forall bs_legal_32 cs ->
+  exists vs st, run Gen_split.bs_u32 (Gen_split.bs_u32_safe_cut fuel mem) (Gen_split.mk_bs_u32 0 0 (zlen mem)) cs = Some (vs, st).
+Proof. exact bs_u32_safe_cut_in_bounds. Qed.
+Print Assumptions byte_splitter_u32_safe_cut_in_bounds.
+
+Theorem split_bitstring_u64_cut_sequence_reconstructs :
+  forall mem fuel, bytes_ok mem -> 0 < zlen mem -> (64 < fuel)%nat ->
+  forall cs, Forall sb_legal_64 cs -> C25_Fields.zsum cs = 8 * zlen mem ->
+  exists vs, run Gen_split.sb_u64 (Gen_split.sb_u64_cut fuel mem) (Gen_split.mk_sb_u64 0 0 0 (zlen mem)) cs
+             = Some (vs, Gen_split.mk_sb_u64 (zlen mem) 0 0 (zlen mem)) /\
+             length vs = length cs /\ joinf (combine vs cs) = mval mem.
+Proof. exact sb_u64_cut_sequence. Qed.
+Print Assumptions split_bitstring_u64_cut_sequence_reconstructs.
+
+Theorem split_bitstring_u64_safe_cut_sequence_reconstructs :
+  forall mem fuel, bytes_ok mem -> 0 < zlen mem -> (64 < fuel)%nat ->
+  forall cs, 8 * zlen mem < 2 ^ 31 -> Forall sb_legal_64 cs -> 8 * zlen mem <= C25_Fields.zsum cs ->
+  exists vs, run Gen_split.sb_u64 (Gen_split.sb_u64_safe_cut fuel mem) (Gen_split.mk_sb_u64 0 0 0 (zlen mem)) cs
+             = Some (vs, Gen_split.mk_sb_u64 (zlen mem) 0 0 (zlen mem)) /\
+             length vs = length cs /\ joinf (combine vs (clip (8 * zlen mem) 0 cs)) = mval mem.
+Proof. exact sb_u64_safe_cut_sequence. Qed.
+Print Assumptions split_bitstring_u64_safe_cut_sequence_reconstructs.
+
+Theorem split_bitstring_u64_safe_cut_in_bounds :
+  forall mem fuel, bytes_ok mem -> 0 < zlen mem -> (64 < fuel)%nat ->
+  forall cs, 8 * zlen mem < 2 ^ 31 -> Forall sb_legal_64 cs ->
+  exists vs st, run Gen_split.sb_u64 (Gen_split.sb_u64_safe_cut fuel mem) (Gen_split.mk_sb_u64 0 0 0 (zlen mem)) cs = Some (vs, st).
+Proof. exact sb_u64_safe_cut_in_bounds. Qed.
+Print Assumptions split_bitstring_u64_safe_cut_in_bounds.
+
+Theorem byte_splitter_u64_cut_sequence_reconstructs :
+  forall mem fuel, bytes_ok mem -> 0 < zlen mem -> (8 < fuel)%nat ->
+  forall cs, Forall bs_legal_64 cs -> C25_Fields.zsum cs = 8 * zlen mem ->
+  exists vs, run Gen_split.bs_u64 (Gen_split.bs_u64_cut fuel mem) (Gen_split.mk_bs_u64 0 0 (zlen mem)) cs
+             = Some (vs, Gen_split.mk_bs_u64 (zlen mem) 0 (zlen mem)) /\
+             length vs = length cs /\ joinf (combine vs cs) = mval mem.
+Proof. exact bs_u64_cut_sequence. Qed.
+Print Assumptions byte_splitter_u64_cut_sequence_reconstructs.
+
+Theorem byte_splitter_u64_safe_cut_sequence_reconstructs :
+  forall mem fuel, bytes_ok mem -> 0 < zlen mem -> (8 < fuel)%nat ->
+  forall cs, 8 * zlen mem < 2 ^ 31 -> Forall bs_legal_64 cs -> 8 * zlen mem <= C25_Fields.zsum cs ->
+  exists vs, run Gen_split.bs_u64 (Gen_split.bs_u64_safe_cut fuel mem) (Gen_split.mk_bs_u64 0 0 (zlen mem)) cs
+             = Some (vs, Gen_split.mk_bs_u64 (zlen mem) 0 (zlen mem)) /\
+             length vs = length cs /\ joinf (combine vs (clip (8 * zlen mem) 0 cs)) = mval mem.
+Proof. exact bs_u64_safe_cut_sequence. Qed.
+Print Assumptions byte_splitter_u64_safe_cut_sequence_reconstructs.
+
+Theorem byte_splitter_u64_safe_cut_in_bounds :
+  forall mem fuel, bytes_ok mem -> 0 < zlen mem -> (8 < fuel)%nat ->
+  forall cs, 8 * zlen mem < 2 ^ 31 -> Forall bs_legal_64 cs ->
+  exists vs st, run Gen_split.bs_u64 (Gen_split.bs_u64_safe_cut fuel mem) (Gen_split.mk_bs_u64 0 0 (zlen mem)) cs = Some (vs, st).
+Proof. exact bs_u64_safe_cut_in_bounds. Qed.
+Print Assumptions byte_splitter_u64_safe_cut_in_bounds.
 
 Example rev_nonvacuous :
   rev 32 0x00000001 = 0x80000000 /\ rev 32 0x12345678 = 0x1e6a2c48 /\
@@ -440,8 +549,20 @@ Example bitop_nonvacuous :
 Proof. vm_compute. repeat split. Qed.
 
 Example number_splitter_nonvacuous :
-  Forall (legal 32) [4; 12; 9; 7] /\ zsum [4; 12; 9; 7] = 32 /\ ok_i32 (-2) /\
+  Forall (legal 32) [4; 12; 9; 7] /\ C25_Fields.zsum [4; 12; 9; 7] = 32 /\ ok_i32 (-2) /\
   run Gen_split.ns_i32 Gen_split.ns_i32_cut (Gen_split.mk_ns_i32 (-2) 0) [4; 12; 9; 7]
     = Some ([14; 4095; 511; 127], Gen_split.mk_ns_i32 (-2) 32) /\
   joinf (combine [14; 4095; 511; 127] [4; 12; 9; 7]) = (-2) mod 2 ^ 32.
 Proof. split; [repeat constructor; unfold legal; lia|]. vm_compute. repeat split; intros; discriminate. Qed.
+
+Example byte_splitters_nonvacuous :
+  bytes_ok [0x01; 0x23; 0x45] /\ Forall sb_legal_32 [5; 11; 8] /\ C25_Fields.zsum [5; 11; 8] = 8 * zlen [0x01; 0x23; 0x45] /\
+  run Gen_split.sb_u32 (Gen_split.sb_u32_cut 40 [0x01; 0x23; 0x45]) (Gen_split.mk_sb_u32 0 0 0 3) [5; 11; 8]
+    = Some ([1; 280; 69], Gen_split.mk_sb_u32 3 0 0 3) /\
+  joinf (combine [1; 280; 69] [5; 11; 8]) = mval [0x01; 0x23; 0x45] /\
+  Gen_split.bs_u64_safe_cut 9 [0x01; 0x02] (Gen_split.mk_bs_u64 1 0 2) 64 = Some (2, Gen_split.mk_bs_u64 2 0 2) /\
+  Gen_split.sb_u32_cut 40 [0x01] (Gen_split.mk_sb_u32 0 4 0 1) 8 = None.
+Proof.
+  split; [repeat constructor; lia|]. split; [repeat constructor; unfold sb_legal_32; lia|].
+  vm_compute. repeat split.
+Qed.
